@@ -36,16 +36,59 @@ type C16Case struct {
 // UNBLOCK, CLIENT KILL, closed socket) at the same moment at which another connection pushes to the list
 // they wait for; the offset between the two events is swept over +-1.5 ms across the rounds.
 type C16Edge struct {
-	Kind      int `json:"kind"` // 1 timeout 2 CLIENT UNBLOCK 3 socket closed 4 CLIENT KILL
+	Kind      int `json:"kind"` // 1 timeout 2 CLIENT UNBLOCK 3 socket closed 4 CLIENT KILL 5 large values scanned while written
 	Rounds    int `json:"rounds"`
 	Waiters   int `json:"waiters"`
 	TimeoutMs int `json:"timeout_ms"`
 	Cmd       int `json:"cmd"` // 0 BLPOP 1 BRPOP two keys 2 BLMOVE 3 BLMPOP
 }
 
-var c16EdgeNames = []string{"", "timeout", "client-unblock", "socket-closed", "client-kill"}
+var c16EdgeNames = []string{"", "timeout", "client-unblock", "socket-closed", "client-kill", "large-value-scanned-while-written"}
+
+// c16BigValue: a 256 KiB string, a hash and a list with large members; writers change them with the commands
+// that could work in place, readers scan them with the commands whose work is proportional to the size.
+func c16BigValue(emu *kit.Emu, e C16Edge) {
+	n := 256 << 10
+	admin := emu.Dial()
+	admin.Do("SET", "bigs", strings.Repeat("\x00", n))
+	admin.Do("HSET", "bigh", "f", strings.Repeat("h", n))
+	admin.Do("RPUSH", "bigl", strings.Repeat("l", n), "tail")
+	admin.Close()
+	chunk := strings.Repeat("\xff", n/2)
+	var wg sync.WaitGroup
+	run := func(cmds [][]string, rounds int) {
+		wg.Add(1)
+		go func() {
+			defer wg.Done()
+			cn, err := kit.Dial(emu.Addr)
+			if err != nil {
+				return
+			}
+			cn.Proto = 0
+			defer cn.Close()
+			for r := 0; r < rounds; r++ {
+				cn.DoT(3*time.Second, cmds[r%len(cmds)]...)
+			}
+		}()
+	}
+	writes := [][]string{{"SETRANGE", "bigs", "0", chunk}, {"SETBIT", "bigs", "77", "1"}, {"BITFIELD", "bigs", "SET", "u8", "1024", "255"}, {"SETRANGE", "bigs", strconv.Itoa(n / 2), chunk}, {"BITFIELD", "bigs", "INCRBY", "u16", "64", "3"},
+		{"LSET", "bigl", "0", strings.Repeat("m", n)}, {"HSET", "bigh", "f", strings.Repeat("i", n)}, {"APPEND", "bigs", ""}, {"SETBIT", "bigs", "77", "0"}, {"SETRANGE", "bigs", "0", strings.Repeat("\x00", n)}}
+	reads := [][]string{{"BITCOUNT", "bigs"}, {"BITPOS", "bigs", "1"}, {"GET", "bigs"}, {"GETRANGE", "bigs", "0", "-1"}, {"DUMP", "bigs"}, {"STRLEN", "bigs"}, {"GETBIT", "bigs", "2000000"}, {"BITOP", "NOT", "bigd", "bigs"},
+		{"LRANGE", "bigl", "0", "-1"}, {"HGETALL", "bigh"}, {"LINDEX", "bigl", "0"}, {"HGET", "bigh", "f"}, {"COPY", "bigs", "bigc", "REPLACE"}, {"LCS", "bigs", "bigs", "LEN"}, {"BITFIELD_RO", "bigs", "GET", "u8", "0"}}
+	for w := 0; w < 1+e.Waiters/4; w++ {
+		run(writes[w:], e.Rounds*2)
+	}
+	for r := 0; r < 2+e.Waiters/3; r++ {
+		run(reads[r:], e.Rounds*2)
+	}
+	wg.Wait()
+}
 
 func c16EdgeRun(emu *kit.Emu, e C16Edge) {
+	if e.Kind == 5 {
+		c16BigValue(emu, e)
+		return
+	}
 	pusher, ctl := emu.Dial(), emu.Dial()
 	defer pusher.Close()
 	defer ctl.Close()
@@ -163,7 +206,7 @@ func c16Gen(t *rapid.T) C16Case {
 		c.Drops = append(c.Drops, d)
 	}
 	if rapid.IntRange(0, 2).Draw(t, "edge") == 0 {
-		c.Edge = &C16Edge{Kind: rapid.IntRange(1, 4).Draw(t, "ekind"), Rounds: rapid.IntRange(10, 40).Draw(t, "erounds"), Waiters: rapid.IntRange(1, 8).Draw(t, "ewaiters"),
+		c.Edge = &C16Edge{Kind: rapid.IntRange(1, 5).Draw(t, "ekind"), Rounds: rapid.IntRange(10, 40).Draw(t, "erounds"), Waiters: rapid.IntRange(1, 8).Draw(t, "ewaiters"),
 			TimeoutMs: pick(t, "ems", 10, 15, 20), Cmd: rapid.IntRange(0, 3).Draw(t, "ecmd")}
 	}
 	return c
